@@ -11,6 +11,11 @@ Monitor 2 schedule independence: same input history under every permutation of s
    the driver dict order; all wire values and leaf state must equal the identity order after every edge.
 Monitor 3 splitting: clk(n) pieces vs n x clk(1) vs random compositions with inputs changed only at shared call
    boundaries: equal states at the shared boundaries, total_clks advanced by n.
+Monitor 5 run control: histories of clk() calls in which Simulator.stop() is requested by a listener after the first / a middle / the
+   LAST cycle of a call, at a position the call never reaches, after every cycle, and while idle between calls, followed by
+   stop-free clk(0)/clk(1)/clk(n): edges performed per call (listener notifications and total_clks) against the logical model
+   "a stop ends the running call only", states against single-cycle calls on a simulator that never sees stop(), and the
+   same history with every stop-free clk(n) replaced by n x clk(1).
 """
 import itertools
 import math
@@ -25,7 +30,7 @@ RULE = ('random designs with 2-7 sequential leaves wired to each other (register
         'two clock domains feeding each other), 10-24 cycles of random inputs; each design is run under every permutation of the '
         'clockables lists and of the driver dict order (all when <= 120 quick / 5040 thorough, sampled beyond), with the E1 trace '
         'specification evaluated on the recorded events, under runs in which the clockDriver of a wrapper/block is attached, replaced or removed between calls '
-        '(followed by getSimulator()) with the set of clocked leaves judged per cycle, and under several splittings of the run into clk() calls including clk(0); '
+        '(followed by getSimulator()) with the set of clocked leaves judged per cycle, under several splittings of the run into clk() calls including clk(0), and under histories in which Simulator.stop() is requested by a listener at every position of a clk(n) call (first, middle, last cycle, never reached, every cycle) or while idle, followed by clk(n) calls compared with n x clk(1); '
         'non-trivial = a design for which an immediate-write twin of Reg (harness class PutReg) DOES give order-dependent results '
         'under the same permutations, i.e. atomicity is what makes the real design order independent; distinct by plan hash')
 SHARDS = {'quick': 1, 'thorough': 16}
@@ -414,6 +419,8 @@ def check_design(run, plan, rnd, T, cap, stats, meta, trace_every=7):
     check_splitting(run, plan, hist, rnd, ident, stats, meta)
     # Monitor 4
     check_domains(run, plan, hist, rnd, stats, meta)
+    # Monitor 5
+    check_runctl(run, plan, stop_script(plan, rnd), stats, meta)
     if stats['designs'] in (1, 5, 20, 60):
         run.sample(dict(shape=plan.get('shape'), blocks=[(b['id'], b.get('entry', b['kind'])) for b in plan['blocks']], drivers=drivers,
                         schedules_run=len(scheds), schedule_space=total, cycles=len(hist), order_sensitive_with_PutReg=sensitive))
@@ -511,6 +518,206 @@ def check_domains(run, plan, hist, rnd, stats, meta):
                       what='cycle %d: %s %s%s' % (bad['cycle'], rel, (bad[rel] or [''])[0], ' (after a clockDriver change + getSimulator())' if bad['after_driver_change'] else ''))
 
 
+# --------------------------------------------------------------------------- Monitor 5: run control (Simulator.stop) inside histories
+
+STOP_CLASSES = ('first', 'middle', 'last', 'last_n1', 'beyond', 'every', 'idle', 'idle_twice', 'last_and_idle', 'none')
+
+
+class _Stopper:
+    """breakpoint-style listener: counts the edges it is told about and calls sim.stop() at the chosen positions of the
+    running clk() call (1 = after the first cycle of the call)"""
+    def __init__(self):
+        self.sim = None
+        self.k = 0
+        self.stop_at = ()
+        self.stops = 0
+
+    def simulatorUpdated(self):
+        self.k += 1
+        if self.k in self.stop_at:
+            self.stops += 1
+            self.sim.stop()
+
+
+def stop_script(plan, rnd):
+    """a history of clk() calls in which sim.stop() is requested at every kind of position: by a listener after the first /
+    a middle / the LAST cycle of a clk(n) call, at a position the call never reaches, after every cycle, and from outside while
+    no call is running; every such call is followed by stop-free calls clk(0) / clk(1) / clk(2..5).
+    call = dict(n, vals, stop_at=[positions], idle_stops=k (sim.stop() calls made just before this call), cls)"""
+    ws = {w['id']: w['w'] for w in plan['wires']}
+
+    def vals():
+        return {i: rnd.getrandbits(ws[i]) for i in plan['inputs']}
+    order = list(STOP_CLASSES)
+    rnd.shuffle(order)
+    calls = [dict(n=rnd.randint(1, 3), vals=vals(), stop_at=[], idle_stops=0, cls='none')]
+    for cls in order:
+        n = rnd.randint(3, 6)
+        idle = 0
+        if cls == 'first':
+            st = [1]
+        elif cls == 'middle':
+            st = [rnd.randint(2, n - 1)]
+        elif cls == 'last':
+            st = [n]
+        elif cls == 'last_n1':
+            n, st = 1, [1]
+        elif cls == 'beyond':
+            st = [n + rnd.randint(1, 3)]
+        elif cls == 'every':
+            st = list(range(1, n + 1))
+        elif cls == 'idle':
+            st, idle = [], 1
+        elif cls == 'idle_twice':
+            st, idle = [], 2
+        elif cls == 'last_and_idle':
+            st, idle = [n], 1
+        else:
+            st = []
+        calls.append(dict(n=n, vals=vals(), stop_at=st, idle_stops=idle, cls=cls))
+        f = rnd.random()
+        if f < 0.25:
+            calls.append(dict(n=0, vals=vals(), stop_at=[], idle_stops=0, cls='none'))
+        calls.append(dict(n=1 if 0.25 <= f < 0.45 else rnd.randint(2, 5), vals=vals(), stop_at=[], idle_stops=0, cls='none'))
+        if f > 0.7:
+            calls.append(dict(n=rnd.randint(1, 4), vals=vals(), stop_at=[], idle_stops=0, cls='none'))
+    return calls
+
+
+def model_edges(call):
+    """the unchanged semantics of Simulator.stop(): it ends the RUNNING clk() call after the current cycle; a request made on
+    the last cycle of a call or while no call is running has nothing left to end and never affects a later call"""
+    hit = [p for p in call['stop_at'] if p <= call['n']]
+    return min(hit) if hit else call['n']
+
+
+def run_script(plan, calls):
+    """-> dict(edges=[listener notifications per call], clks=[total_clks advance per call], traj=[(wires, state) after each call], stops, error)"""
+    out = dict(edges=[], clks=[], traj=[], stops=0, idle_stops=0, error=None, prepared=[])
+    try:
+        b = netgen.build(plan)
+        sim = b.simulator()
+        lst = _Stopper()
+        lst.sim = sim
+        sim.addListener(lst)
+        for c in calls:
+            for _ in range(c.get('idle_stops', 0)):
+                sim.stop()              # e.g. the stop button of a GUI while nothing runs
+                out['idle_stops'] += 1
+            b.poke(c['vals'])
+            lst.k = 0
+            lst.stop_at = tuple(c['stop_at'])
+            t0 = sim.total_clks
+            with muted():
+                sim.clk(c['n'])
+            lst.stop_at = ()
+            out['edges'].append(lst.k)
+            out['clks'].append(sim.total_clks - t0)
+            out['traj'].append((netgen.wire_values(b.hw), netgen.leaf_state(b.hw)))
+            out['prepared'].append(hooks.pending_count())
+        out['stops'] = lst.stops
+    except Exception as e:
+        out['error'] = repr(e)[:300]
+    return out
+
+
+def pending_class(calls, j):
+    """what kind of stop request (if any) was made since the last cycle that could honour it, before call j starts"""
+    if calls[j].get('idle_stops'):
+        return 'idle'
+    if j > 0:
+        p = calls[j - 1]
+        if p['stop_at'] and model_edges(p) == p['n'] and p['n'] in p['stop_at']:
+            return 'last_cycle'
+        if p['stop_at'] and model_edges(p) < p['n']:
+            return 'honoured_mid_call'
+        if p.get('idle_stops') and p['n'] == 0:
+            return 'idle'
+    return 'none'
+
+
+def check_runctl(run, plan, calls, stats, meta):
+    case = dict(plan=plan, hist=[], meta=meta, mode='runctl', calls=calls)
+    r = run_script(plan, calls)
+    if r['error']:
+        run.violation('design_does_not_simulate', dict(shape=plan.get('shape'), mode='runctl'), case, observed=r['error'], what='run with stop() requests raises: %s' % r['error'])
+        return
+    exp = [model_edges(c) for c in calls]
+    # reference: the same edges as single-cycle calls on a simulator that has no listener and never sees stop()
+    hist_ref = []
+    for c, e in zip(calls, exp):
+        hist_ref += [c['vals']] * e
+    ref = simulate(plan, hist_ref)
+    if ref['error']:
+        run.violation('design_does_not_simulate', dict(shape=plan.get('shape'), mode='runctl_ref'), case, observed=ref['error'], what=ref['error'])
+        return
+    stats['runctl_scripts'] = stats.get('runctl_scripts', 0) + 1
+    stats['stop_requests_by_listener'] = stats.get('stop_requests_by_listener', 0) + r['stops']
+    stats['stop_requests_while_idle'] = stats.get('stop_requests_while_idle', 0) + r['idle_stops']
+    by = stats.setdefault('runctl_calls_by_class', {})
+    pend = stats.setdefault('runctl_calls_by_pending_stop', {})
+    if any(r['prepared']):
+        run.violation('prepared_not_empty', dict(when='after_stopped_clk'), case, expected=0, observed=max(r['prepared']), what='Wire.prepared not empty after a clk() call ended by stop()')
+        hooks.drop_pending()
+    E = 0
+    for j, c in enumerate(calls):
+        by[c['cls']] = by.get(c['cls'], 0) + 1
+        pc = pending_class(calls, j)
+        pend[pc] = pend.get(pc, 0) + 1
+        if pc != 'none' and c['n'] > 0:
+            stats['runctl_calls_after_unhonoured_stop' if pc in ('idle', 'last_cycle') else 'runctl_calls_after_honoured_stop'] = stats.get(
+                'runctl_calls_after_unhonoured_stop' if pc in ('idle', 'last_cycle') else 'runctl_calls_after_honoured_stop', 0) + 1
+        run.ev()
+        stats['runctl_edge_counts_compared'] = stats.get('runctl_edge_counts_compared', 0) + 1
+        got = r['edges'][j]
+        if got != exp[j] or r['clks'][j] != exp[j]:
+            obs = got if got != exp[j] else r['clks'][j]
+            run.violation('edges_performed', dict(relation='less' if obs < exp[j] else 'more', pending_stop=pc, stop_in_call=c['cls'],
+                                                  counter='listener' if got != exp[j] else 'total_clks'), dict(case, call=j),
+                          expected=exp[j], observed=obs,
+                          what='call %d = clk(%d) with stop() requested at cycles %s of the call (pending request before the call: %s) performed %d edges '
+                               '(total_clks advanced by %d), expected %d' % (j, c['n'], c['stop_at'], pc, got, r['clks'][j], exp[j]))
+            return
+        E += exp[j]
+        if exp[j] >= 1:
+            run.ev()
+            stats['runctl_states_compared'] = stats.get('runctl_states_compared', 0) + 1
+            d = first_diff([ref['traj'][E - 1]], [r['traj'][j]])
+            if d is not None:
+                run.violation('split_dependent', dict(composition='with_stop_requests', differs=d[1], pending_stop=pc), dict(case, call=j), expected=d[3], observed=d[4],
+                              what='after call %d (%d edges so far) %s %s = %r with single-cycle calls and no stop(), %r in the history with stop() requests' % (
+                                  j, E, d[1], d[2], d[3], d[4]))
+                return
+    # the literal clause: the same history with every stop-free clk(n) replaced by n x clk(1)
+    singles, owner = [], []
+    for j, c in enumerate(calls):
+        if not c['stop_at'] and c['n'] > 1:
+            for k in range(c['n']):
+                singles.append(dict(c, n=1, idle_stops=c.get('idle_stops', 0) if k == 0 else 0))
+                owner.append(j)
+        else:
+            singles.append(c)
+            owner.append(j)
+    r1 = run_script(plan, singles)
+    case1 = dict(case, singles=True)
+    if r1['error']:
+        run.violation('design_does_not_simulate', dict(shape=plan.get('shape'), mode='runctl_singles'), case1, observed=r1['error'], what=r1['error'])
+        return
+    for j, c in enumerate(calls):
+        ks = [k for k, o in enumerate(owner) if o == j]
+        run.ev()
+        stats['runctl_n_vs_singles_compared'] = stats.get('runctl_n_vs_singles_compared', 0) + 1
+        e1 = sum(r1['edges'][k] for k in ks)
+        pc = pending_class(calls, j)
+        d = first_diff([r['traj'][j]], [r1['traj'][ks[-1]]])
+        if e1 != r['edges'][j] or d is not None:
+            run.violation('split_dependent', dict(composition='n_vs_singles_after_stop', differs='edges' if e1 != r['edges'][j] else d[1], pending_stop=pc), dict(case1, call=j),
+                          expected=e1 if e1 != r['edges'][j] else d[3], observed=r['edges'][j] if e1 != r['edges'][j] else d[4],
+                          what='call %d: clk(%d) performed %d edges, %d x clk(1) performed %d (pending stop request before the call: %s)%s' % (
+                              j, c['n'], r['edges'][j], len(ks), e1, pc, '' if d is None else '; %s %s = %r vs %r' % (d[1], d[2], d[4], d[3])))
+            return
+
+
 # --------------------------------------------------------------------------- Monitor 3: splitting
 
 def compositions(n, bounds, rnd):
@@ -582,6 +789,9 @@ def run_check(run, tier, seed, shard):
                'queues it twice) must end with the LAST prepared value and at least one settle')
     run.assume('leaf state = integer / string / list-of-scalar attributes of every leaf object (Reg.value, memory contents, FSM state and counters)')
     run.assume('inputs are harness-poked undriven wires; within one clk(n) call they are constant, so splittings are compared with inputs changing only at shared call boundaries')
+    run.assume('Simulator.stop() ends the RUNNING clk() call after the cycle in which it is requested (the listener is notified at the end of a cycle); a request made '
+               'on the last cycle of a call, or while no call is running, has nothing left to end and is not carried over: every clk(n) call starts afresh '
+               '(the unchanged clk() re-arms its run flag on entry). So clk(n) after any history containing stop() requests performs n edges, like n x clk(1)')
     quick = tier == 'quick'
     stats = {}
     n_designs = 264 if quick else 9000
@@ -606,6 +816,8 @@ def run_check(run, tier, seed, shard):
     by = stats.pop('by_shape', {})
     run.extra['designs_by_shape'] = by
     run.extra['fsm_states_visited'] = stats.pop('fsm_states', {})
+    run.extra['runctl_calls_by_stop_class'] = stats.pop('runctl_calls_by_class', {})
+    run.extra['runctl_calls_by_pending_stop'] = stats.pop('runctl_calls_by_pending_stop', {})
     for k, v in stats.items():
         run.count(k, v)
     if shard is None:
@@ -619,7 +831,11 @@ def post_merge(run, tier, seed):
                    ('split_points_compared', 'splitting monitor compared nothing'), ('zero_length_calls', 'no clk(0) call in the splittings'), ('refetch_calls', 'no splitting fetched the simulator again between calls'), ('stream_captures_judged', 'no StreamCapture was judged'),
                    ('sequence_lists_checked', 'no Sequence data list was checked after a run'),
                    ('designs_with_different_freqs', 'no design with clock drivers of different frequencies'),
-                   ('driver_changes', 'no clockDriver was changed on a live design'), ('cycles_with_a_gated_sequential_leaf', 'no cycle with a gated-off sequential leaf was judged'), ('multi_driver_designs', 'no design with two clock drivers was run')):
+                   ('driver_changes', 'no clockDriver was changed on a live design'), ('cycles_with_a_gated_sequential_leaf', 'no cycle with a gated-off sequential leaf was judged'), ('multi_driver_designs', 'no design with two clock drivers was run'),
+                   ('stop_requests_by_listener', 'no listener requested stop() during a clk() call'), ('stop_requests_while_idle', 'stop() was never requested between calls'),
+                   ('runctl_calls_after_unhonoured_stop', 'no clk(n>0) call followed a stop() request made on the last cycle of a call or while idle'),
+                   ('runctl_calls_after_honoured_stop', 'no clk(n>0) call followed a call that was ended early by stop()'),
+                   ('runctl_states_compared', 'run-control monitor compared no state'), ('runctl_n_vs_singles_compared', 'run-control monitor compared no clk(n) with n x clk(1)')):
         if not c.get(k):
             run.inconclusive.append(why)
     if c.get('designs_skipped_time'):
@@ -643,6 +859,8 @@ def replay(run, case):
                           what='cycle %d: %s %s' % (bad['cycle'], rel, (bad[rel] or [''])[0]))
         if r['error']:
             run.violation('design_does_not_simulate', dict(mode='domains'), c, observed=r['error'], what=r['error'])
+    elif mode == 'runctl':
+        check_runctl(run, plan, c['calls'], stats, c.get('meta', {}))
     elif mode == 'split':
         calls = [tuple(x) for x in c['calls']]
         n = sum(x[0] for x in calls)
